@@ -550,7 +550,7 @@ func (fv *FV) ident(x *ast.Ident, cx *Cx) TV {
 		if s, ok := u.ExtraCells[x.Name]; ok {
 			return TV{T: fv.get(cx.st, x.Name, s), S: s}
 		}
-		if s, ok := u.SpecConsts[x.Name]; ok {
+		if s, ok := u.SpecConsts[x.Name]; ok && !fv.shadowedByLocal(x, cx) {
 			var ty types.Type
 			if s == SInt {
 				ty = tInt
@@ -567,8 +567,9 @@ func (fv *FV) ident(x *ast.Ident, cx *Cx) TV {
 	obj := fv.lookupIdent(x, cx)
 	switch o := obj.(type) {
 	case *types.Var:
-		// in an ensures clause a parameter denotes its entry value
-		if cx.contract && !fv.inout[o] && fv.isParam(o) && fv.isLocal(o) {
+		// in a requires/ensures clause a parameter denotes its entry value; in a loop invariant and in ghost code it denotes,
+		// like every other variable, its current value (old(p) is the entry value): `for n != nil { ...; n = n.next }`
+		if cx.contract && !fv.inout[o] && fv.isParam(o) && fv.isLocal(o) && ((cx.loopIn == nil && cx.what != "ghost") || cx.inOld) {
 			cell := fv.varCell(o)
 			return fv.mk(fv.get(fv.entry, cell, u.sortOf(o.Type())), o.Type())
 		}
@@ -587,6 +588,16 @@ func (fv *FV) ident(x *ast.Ident, cx *Cx) TV {
 		return TV{T: "1", Ty: o.Type(), S: SInt}
 	}
 	panic(refuse("identifier %s cannot be resolved (at %s)", x.Name, fv.pos(x.Pos())))
+}
+
+// shadowedByLocal: the name is a parameter or local variable of the function under verification at the point where the
+// contract expression is resolved (a receiver called n shadows the specification constant n).
+func (fv *FV) shadowedByLocal(x *ast.Ident, cx *Cx) bool {
+	if fv.fn == nil || fv.fn.Body == nil || !cx.scopePos.IsValid() {
+		return false
+	}
+	v, ok := fv.lookupIdent(x, cx).(*types.Var)
+	return ok && !v.IsField() && fv.isLocal(v)
 }
 
 // argAlias: in the contract of a function literal, argN denotes its N-th parameter (entry value), so that the contract of a
@@ -885,7 +896,7 @@ func (fv *FV) binder(e ast.Expr) (string, types.Type) {
 		id, ok1 := b.X.(*ast.Ident)
 		tn, ok2 := b.Y.(*ast.Ident)
 		if ok1 && ok2 && (b.Op == token.MUL || b.Op == token.ADD) {
-			if obj, ok := fv.u.Pkg.Types.Scope().Lookup(tn.Name).(*types.TypeName); ok {
+			if obj := fv.u.typeByName(tn.Name); obj != nil {
 				if b.Op == token.ADD {
 					return id.Name, obj.Type() // `k + memoKey`: k of (value) type memoKey
 				}
